@@ -128,7 +128,18 @@ get_cache_buf(addrxlat_ctx_t *ctx, const addrxlat_fulladdr_t *addr,
 			goto out;
 	} while (++slot < &ctx->cache.slot[READ_CACHE_SLOTS]);
 
-	/* Not found - use the LRU slot */
+	/* Not found - a new page must be read.
+	 * The get-page callback may read through this context again. The
+	 * check at the end of this function catches a nested read of the
+	 * page that is being read only if the slot held a page before and
+	 * has not been recycled by another nested read, so the nesting
+	 * itself must be bounded.
+	 */
+	if (ctx->cache.nesting >= MAX_READ_NESTING)
+		return set_error(ctx, ADDRXLAT_ERR_NODATA,
+				 "Too many nested page reads");
+
+	/* Use the LRU slot */
 	slot = ctx->cache.mru->prev;
 
 	/* Free up the slot if necessary */
@@ -139,7 +150,9 @@ get_cache_buf(addrxlat_ctx_t *ctx, const addrxlat_fulladdr_t *addr,
 	slot->buffer.addr = *addr;
 	slot->buffer.ptr = NULL;
 	slot->buffer.put_page = def_put_page_cb;
+	++ctx->cache.nesting;
 	status = ctx->cb->get_page(ctx->cb, &slot->buffer);
+	--ctx->cache.nesting;
 	if (status != ADDRXLAT_OK) {
 		slot->buffer.size = 0;
 		return status;
